@@ -19,6 +19,25 @@ def run(ctx):
         # assertions compiled out, so that the wrong value reaches the comparison instead of aborting the process
         h2 = ctx.build_harness("h_grid", libs=("PolarGrid",), extra=("-DNDEBUG",), out_name="h_grid_ndebug")
         ctx.pipe([h2, "300", "20", "28"], "grid", label="grid-ndebug-search")
+    # the same queries with the library's PolarGrid sources compiled under AddressSanitizer / UBSan and with the assertions compiled
+    # out (what a release build executes): an out-of-bounds read that the default build performs silently ends the process here, and
+    # the crash probe names the grid
+    import subprocess, os, glob
+    from verif import BUILD, REPO, ROOT, BrokenObligation
+    out = os.path.join(BUILD, "harness-asan-unity")
+    os.makedirs(out, exist_ok=True)
+    exe = os.path.join(out, "h_grid")
+    r = subprocess.run(["g++", "-std=c++20", "-O1", "-g", "-fopenmp", "-DNDEBUG", "-fsanitize=address,undefined", "-fno-sanitize-recover=all",
+                        f"-I{REPO}/include", f"-I{REPO}/src", f"-I{ROOT}/harness", os.path.join(ROOT, "harness", "h_grid.cpp"),
+                        *sorted(glob.glob(os.path.join(REPO, "src", "PolarGrid", "*.cpp"))), "-o", exe + ".tmp"], capture_output=True, text=True)
+    if r.returncode != 0:
+        raise BrokenObligation("harness-build:h_grid (asan)", r.stderr[-3000:])
+    os.replace(exe + ".tmp", exe)
+    env = {"ASAN_OPTIONS": "detect_leaks=0"}
+    args = ["150", "20", "28"] if ctx.tier == "quick" else ["800", "24", "40"]
+    ctx.pipe([exe, *args], "grid", env=env, label="grid-asan-ndebug")
+    if any(b[0].startswith("harness grid-asan-ndebug") for b in ctx.broken):
+        ctx.crash_probe([exe, *args], "grid-asan-ndebug-crash", start_re=r"^G\b", env=env)
     ctx.assumptions += ["nr*ntheta < 2^31 (the code stores node numbers in int)",
                         "the automatic split criterion is a floating-point predicate; the model treats it as an arbitrary "
                         "Boolean function (theorems) and re-evaluates it in IEEE double in the driver (correspondence)"]
